@@ -123,9 +123,10 @@ class EmitV3(V3Unit):
     props = ("C05", "C07", "C10", "C11", "C12", "C14", "C20")
     label = "proved-shape-bounded(binding list of the enumerated length; every leaf symbolic)"
 
-    def __init__(self, level, op, k, ctx_engine_given, reply="ok", interference=False):
+    def __init__(self, level, op, k, ctx_engine_given, reply="ok", interference=False, second_user=None):
         self.level, self.op, self.k, self.ctx_engine_given, self.reply = level, op, k, ctx_engine_given, reply
         self.interference = interference
+        self.second_user = second_user
         self.target = "puresnmp.api.raw:Client.%s" % op
         self.functions = (self.target, "puresnmp.api.raw:Client._send", "puresnmp.api.raw:Client.__init__",
                           "puresnmp_plugins.mpm.v3:V3MPM.encode", "puresnmp_plugins.mpm.v3:is_confirmed",
@@ -146,9 +147,12 @@ class EmitV3(V3Unit):
             self.props = tuple(p for p in self.props if p != "C11")
         if interference:
             self.props = ("C14",)
-        self.name = "v3 %s %s[%d oids, context engine %s, discovery reply %s%s]" % (
+        if second_user:
+            self.props = tuple(self.props) + ("C18",)
+        self.name = "v3 %s %s[%d oids, context engine %s, discovery reply %s%s%s]" % (
             level, op, k, "given" if ctx_engine_given else "default", reply,
-            ", other tasks interfere at every await" if interference else "")
+            ", other tasks interfere at every await" if interference else "",
+            ", then configure(credentials=%s user)" % second_user if second_user else "")
 
     def run(self, interp):
         ctx, rt = interp.ctx, self.rt
@@ -299,35 +303,42 @@ class EmitV3(V3Unit):
         chk(("C05", "C12"), T, "ensures", "exactly-one-request-datagram-after-discovery", ok)
         if not ok:
             return "?"
-        data = sent[1][0][1]
-        rid = cv[0]
-        user = SBytes(rt.f_str_ascii(creds.fields["username"].e))
-        ctx_engine = given if self.ctx_engine_given else E
         w = rt.wire
-        F = rfc.Forms("x690")
-        the_pdu = rfc.pdu(tag, rid, f1, f2, list(zip(oids, vals)), F)
-        scoped = rfc.scoped_pdu(ctx_engine, cname, the_pdu, F)
-        flags = 4 + (2 if use_priv else 0) + (1 if hashname else 0)     # confirmed class: reportable
-        hname = rt.str_lit(hashname) if hashname else None
-        if use_priv:
-            kpriv = rt.f_kul(hname, w.z(creds.fields["priv"][0]), E.e)
-            zs = (kpriv, E.e, B.e, Tm.e, w.z(scoped))
-            payload, privp = rfc.t_octets(SBytes(rt.f_ct(*zs)), F), SBytes(rt.f_salt(*zs))
-        else:
-            payload, privp = scoped, b""
+        ctx_engine = given if self.ctx_engine_given else E
+        hname_of = lambda hn: rt.str_lit(hn) if hn else None          # noqa: E731
 
-        def message(authp):
-            Fm = rfc.Forms("x690")
-            return rfc.v3_message(rid, 65507, flags, 3, rfc.usm_params(E, B, Tm, user, authp, privp, Fm), payload, Fm)
-        if hashname:
-            kul = rt.f_kul(hname, w.z(creds.fields["auth"][0]), E.e)
-            digest = SBytes(rt.f_prefix(rt.f_hmac(hname, kul, w.z(message(b"\x00" * 12))), z3.IntVal(12)))
-            final = message(digest)
-        else:
-            final = message(b"")
-        chk(("C05", "C10", "C12", "C14"), ENC, "ensures",
-            "request-is-the-RFC-3412/3414-message(flags,discovered-engine-boots-time,user,context,digest-over-the-message-as-sent)",
-            interp.eq(data, final))
+        def check_request(data, rid, creds_x, level_x, which):
+            """the datagram `data` is the RFC 3412/3414 request of user creds_x (security level level_x) with request id rid"""
+            hashname_x, use_priv_x = LEVELS[level_x]
+            user = SBytes(rt.f_str_ascii(creds_x.fields["username"].e))
+            F = rfc.Forms("x690")
+            the_pdu = rfc.pdu(tag, rid, f1, f2, list(zip(oids, vals)), F)
+            scoped = rfc.scoped_pdu(ctx_engine, cname, the_pdu, F)
+            flags = 4 + (2 if use_priv_x else 0) + (1 if hashname_x else 0)     # confirmed class: reportable
+            hname = hname_of(hashname_x)
+            kpriv = None
+            if use_priv_x:
+                kpriv = rt.f_kul(hname, w.z(creds_x.fields["priv"][0]), E.e)
+                zs = (kpriv, E.e, B.e, Tm.e, w.z(scoped))
+                payload, privp = rfc.t_octets(SBytes(rt.f_ct(*zs)), F), SBytes(rt.f_salt(*zs))
+            else:
+                payload, privp = scoped, b""
+
+            def message(authp):
+                Fm = rfc.Forms("x690")
+                return rfc.v3_message(rid, 65507, flags, 3, rfc.usm_params(E, B, Tm, user, authp, privp, Fm), payload, Fm)
+            if hashname_x:
+                kul = rt.f_kul(hname, w.z(creds_x.fields["auth"][0]), E.e)
+                digest = SBytes(rt.f_prefix(rt.f_hmac(hname, kul, w.z(message(b"\x00" * 12))), z3.IntVal(12)))
+                final = message(digest)
+            else:
+                final = message(b"")
+            chk(("C05", "C10", "C12", "C14"), ENC, "ensures",
+                "request-is-the-RFC-3412/3414-message(flags,discovered-engine-boots-time,user,context,digest-over-the-message-as-sent)" + which,
+                interp.eq(data, final))
+            return final, scoped, kpriv
+        final, scoped, kpriv = check_request(sent[1][0][1], cv[0], creds, self.level, "")
+        data = sent[1][0][1]
         if use_priv:
             encs = [c for c in self.priv_calls if c[0] == "encrypt"]
             ok = len(encs) == 1
@@ -339,6 +350,22 @@ class EmitV3(V3Unit):
                     And(interp.eq(key, SBytes(kpriv)), interp.eq(eid, E), interp.eq(boots, B), interp.eq(etime, Tm), interp.eq(plain, scoped)))
             chk(("C11",), ENC, "ensures", "datagram-carries-the-ciphertext-with-the-plug-ins-salt(no-plaintext-scoped-PDU)",
                 interp.eq(data, final))
+        if self.second_user and not self.interference:
+            # ---------------- the same client after configure(credentials=<another SNMPv3 user>): nothing of the first user
+            # (name, keys, level) may be left in the next request (the engine data of the discovery stays)
+            creds2 = self.v3creds(interp, self.second_user)
+            interp.call(rt.getattr(interp, client, "configure"), [], {"credentials": creds2})
+            n_clock = len(self.clock_vals)
+            exc2 = None
+            try:
+                interp.call(BoundMethod(fn, client), args, kwargs)
+            except PyExc as pe:
+                exc2 = pe.obj
+            ok = len(sent) == 3 and exc2 is not None and exc_is(exc2, tmo) and len(self.clock_vals) > n_clock
+            chk(("C05", "C18"), T, "ensures", "after-a-change-of-the-v3-user-exactly-one-request-and-no-new-discovery", ok)
+            if ok:
+                self.priv_calls = []
+                check_request(sent[2][0][1], self.clock_vals[n_clock], creds2, self.second_user, "(second user after configure)")
         return "emitted"
 
 
@@ -412,6 +439,9 @@ def units_emit(tier):
     us.append(EmitV3("authPriv-sha1", "multiget", 2, True))
     us.append(EmitV3("authNoPriv-md5", "multiset", 2, True))
     us.append(EmitV3("noAuthNoPriv", "multiget", 1, True))
+    us.append(EmitV3("authNoPriv-md5", "multiget", 1, False, second_user="authNoPriv-md5"))
+    us.append(EmitV3("authNoPriv-md5", "multiset", 1, False, second_user="authPriv-sha1"))
+    us.append(EmitV3("authPriv-sha1", "multiget", 1, True, second_user="noAuthNoPriv"))
     us.append(EmitV3("authNoPriv-md5", "multiget", 1, False, reply="no-bindings"))
     us.append(EmitV3("authNoPriv-md5", "multiget", 1, False, reply="ill-typed-boots"))
     us.append(EmitV3("noAuthNoPriv", "multiget", 1, False, reply="ill-typed-time"))
